@@ -11,7 +11,14 @@ SIGNATURES = {
     "T13": [("pos", "tuple", 13)],
     "N1": [("inner", "class", "G2"), ("s", "float", None)],
     "N2": [("left", "class", "G2"), ("right", "class", "T2"), ("k", "float", None)],
+    # opt-in (Gen(underscore_classes=True / more_forms=True)); kind "list": a raw list/dict of components
+    "CE": [("centre", "tuple", 2), ("centre_err", "float", None)],
+    "LC": [("light_centre", "tuple", 2), ("q", "float", None)],
+    "N3": [("inner", "class", "N1"), ("t", "float", None)],
+    "L1": [("items", "list", None), ("s", "float", None)],
 }
+# limits of the config-default priors (harness/config/priors/vclasses.yaml), filled lazily by default_limits()
+_DEFAULT_LIMITS = {}
 OPS = {"+": "OAdd", "*": "OMul", "/": "ODiv"}
 
 
@@ -20,7 +27,20 @@ def unhex(s):
 
 
 class Gen:
-    def __init__(self, rng, max_depth=3, big_tuples=True, arith=True, consts=True, families=("uniform",), arrays=False):
+    def __init__(self, rng, max_depth=3, big_tuples=True, arith=True, consts=True, families=("uniform",), arrays=False,
+                 tuple_member_kinds=False, underscore_classes=False, more_ops=False, more_forms=False, defaults=False):
+        # opt-in extensions (all off by default; with them off the random stream is unchanged):
+        #   tuple_member_kinds  arithmetic priors and int constants as tuple members, int constants as kwargs
+        #   underscore_classes  classes CE / LC (constructor-argument names containing "_")
+        #   more_ops            "-", "**", unary neg / abs in arithmetic (no ModelTree node: oracle level only)
+        #   more_forms          Collection varargs / __setitem__ / raw nested lists, list-valued kwargs (L1), N3 nesting,
+        #                       a whole TuplePrior passed as kwarg with members created out of index order
+        #   defaults            omitted kwargs / tuple members / nested classes (config-default priors)
+        self.tuple_member_kinds = tuple_member_kinds
+        self.underscore_classes = underscore_classes
+        self.more_ops = more_ops
+        self.more_forms = more_forms
+        self.defaults = defaults
         self.rng = rng
         self.max_depth = max_depth
         self.big_tuples = big_tuples
@@ -56,10 +76,23 @@ class Gen:
 
     def const(self):
         self.features.add("const")
+        if self.tuple_member_kinds and self.rng.random() < 0.15:
+            self.features.add("int-const")
+            return {"t": "const", "v": float(self.rng.randint(-3, 3)).hex(), "int": True}
         return {"t": "const", "v": (self.rng.randint(-12, 12) / 4.0).hex()}
 
     def arith_expr(self, depth=0):
         self.features.add("arith")
+        if self.more_ops and self.rng.random() < 0.35:
+            self.features.add("ops2")
+            kind = self.rng.choice(["-", "-", "**", "neg", "abs"])
+            a = self.prior_ref() if (depth >= 1 or self.rng.random() < 0.7) else self.arith_expr(depth + 1)
+            if kind in ("neg", "abs"):
+                return {"t": "unary", "op": kind, "a": a}
+            if kind == "**":
+                return {"t": "arith", "op": "**", "l": a, "r": {"t": "const", "v": self.rng.choice([2.0, 3.0]).hex()}}
+            b = self.prior_ref() if self.rng.random() < 0.5 else {"t": "const", "v": self.rng.choice([0.5, 2.0, -1.5]).hex()}
+            return {"t": "arith", "op": "-", "l": a, "r": b} if self.rng.random() < 0.7 else {"t": "arith", "op": "-", "l": b, "r": a}
         op = self.rng.choice(["+", "*", "/", "+", "*"])
 
         def operand(left):
@@ -84,6 +117,15 @@ class Gen:
         return self.prior_ref()
 
     def member(self):
+        if self.tuple_member_kinds:
+            r = self.rng.random()
+            if self.arith and r < 0.07:
+                self.features.add("arith-member-in-tuple")
+                return self.arith_expr(1)
+            if r < 0.12:
+                self.features.add("const")
+                self.features.add("int-const")
+                return {"t": "const", "v": float(self.rng.randint(-3, 3)).hex(), "int": True}
         if self.consts and self.rng.random() < 0.15:
             return self.const()
         return self.prior_ref()
@@ -94,19 +136,50 @@ class Gen:
         if cls is None:
             names = ["G2", "G3", "T2", "T3", "N1", "N2"] + (["T11", "T13"] if self.big_tuples else [])
             weights = [4, 3, 3, 2, 2 if depth > 0 else 0, 2 if depth > 0 else 0] + ([1, 1] if self.big_tuples else [])
+            if self.underscore_classes:
+                names += ["CE", "LC"]
+                weights += [1.5, 1.5]
+            if self.more_forms:
+                names += ["N3", "L1"]
+                weights += [1.5 if depth > 0 else 0, 1.5 if depth > 0 else 0]
             cls = rng.choices(names, weights)[0]
         kw = {}
         for arg, kind, extra in SIGNATURES[cls]:
             if kind == "float":
                 kw[arg] = self.scalar()
+                if self.defaults and rng.random() < 0.25:
+                    self.features.add("default-prior")
+                    kw[arg] = {"t": "default"}
             elif kind == "tuple":
                 self.features.add("tuple")
                 if extra >= 11:
                     self.features.add("tuple>=11")
                 kw[arg] = {"t": "tuple", "members": [self.member() for _ in range(extra)]}
+                if self.more_forms and rng.random() < 0.25:
+                    # a whole TuplePrior passed as keyword argument, members created out of index order
+                    order = list(range(extra))
+                    rng.shuffle(order)
+                    kw[arg]["whole"] = True
+                    kw[arg]["order"] = order
+                    self.features.add("whole-tuple-prior")
+                elif self.defaults and extra <= 3:
+                    for j in range(extra):
+                        if rng.random() < 0.2:
+                            self.features.add("default-prior")
+                            kw[arg]["members"][j] = {"t": "default"}
+            elif kind == "list":
+                self.features.add("list-kwarg")
+                form = rng.choice(["list", "dict"])
+                subs = [self.model(0, rng.choice(["G2", "T2", "G3"])) for _ in range(rng.randint(1, 2))]
+                keys = [str(j) for j in range(len(subs))] if form == "list" else ["p", "q"][:len(subs)]
+                kw[arg] = {"t": "coll", "form": form, "raw": True, "items": [[k, m] for k, m in zip(keys, subs)]}
             else:
                 self.features.add("nested")
-                kw[arg] = self.model(depth - 1, extra)
+                if self.defaults and rng.random() < 0.2:
+                    self.features.add("default-prior")
+                    kw[arg] = implicit_model(extra)
+                else:
+                    kw[arg] = self.model(depth - 1, extra)
         extra_attrs = []
         if rng.random() < 0.12:
             self.features.add("extra")
@@ -121,15 +194,24 @@ class Gen:
         self.features.add("collection")
         form = rng.choice(["list", "dict", "kwargs", "append"])
         n = rng.randint(1, 3)
+        if self.more_forms and rng.random() < 0.3:
+            form = rng.choice(["varargs", "setitem"])
+            self.features.add("form:" + form)
+            if form == "varargs":
+                n = rng.randint(2, 3)
         items = []
         names = ["g", "h", "m", "one", "two", "lens", "src"]
         rng.shuffle(names)
         for i in range(n):
-            key = str(i) if form in ("list", "append") else names[i]
+            key = str(i) if form in ("list", "append", "varargs") else names[i]
             r = rng.random()
             if depth > 0 and r < 0.25:
                 sub = self.coll(depth - 1)
                 self.features.add("nested")
+                if self.more_forms and sub["form"] in ("list", "dict") and not any(x[1]["t"] == "copy" for x in sub["items"]) \
+                        and rng.random() < 0.4:
+                    sub["raw"] = True       # a raw list / dict placed in the collection (from_object wraps it)
+                    self.features.add("raw-nested")
             elif r < 0.35:
                 sub = self.prior_ref()
                 self.features.add("direct-prior-in-collection")
@@ -158,10 +240,10 @@ class Gen:
                     consts = [a for a, kind, _ in SIGNATURES[sub["cls"]] if kind == "float" and sub["kw"][a]["t"] == "const"]
                     if consts:
                         cands.append((j, consts))
-            if cands and form in ("list", "append", "dict", "kwargs"):
+            if cands and form in ("list", "append", "dict", "kwargs", "varargs", "setitem"):
                 j, consts = rng.choice(cands)
                 arg = rng.choice(consts)
-                key = str(len(items)) if form in ("list", "append") else "copy"
+                key = str(len(items)) if form in ("list", "append", "varargs") else "copy"
                 newc = {"t": "const", "v": (rng.randint(-12, 12) / 4.0 + 0.125).hex()}
                 items.append([key, {"t": "copy", "of": j, "set": [[arg, newc]]}])
                 self.features.add("copy-with-different-constant")
@@ -181,16 +263,106 @@ class Gen:
                 return {"t": "prior", "ref": inv[e["ref"]]}
             if e["t"] == "arith":
                 return dict(e, l=ren(e["l"]), r=ren(e["r"]))
+            if e["t"] == "unary":
+                return dict(e, a=ren(e["a"]))
             if e["t"] == "tuple":
-                return {"t": "tuple", "members": [ren(m) for m in e["members"]]}
+                return dict(e, members=[ren(m) for m in e["members"]])
             if e["t"] == "model":
                 return dict(e, kw={k: ren(v) for k, v in e["kw"].items()}, extra=[[k, ren(v)] for k, v in e["extra"]])
             if e["t"] == "coll":
                 return dict(e, items=[[k, ren(v)] for k, v in e["items"]])
             if e["t"] == "array":
                 return dict(e, elems=[ren(m) for m in e["elems"]])
-            return e   # const, copy
-        return {"pool": pool, "root": ren(root), "features": sorted(self.features)}
+            return e   # const, copy, default
+        root = ren(root)
+        if self.defaults:
+            assign_default_refs(root, pool)
+        return {"pool": pool, "root": root, "features": sorted(self.features)}
+
+
+def implicit_model(cls):
+    """An omitted nested-class argument: Model.__init__ builds Model(annotation) with config-default priors."""
+    kw = {}
+    for arg, kind, extra in SIGNATURES[cls]:
+        if kind == "float":
+            kw[arg] = {"t": "default"}
+        elif kind == "tuple":
+            kw[arg] = {"t": "tuple", "members": [{"t": "default"} for _ in range(extra)]}
+        elif kind == "class":
+            kw[arg] = implicit_model(extra)
+        else:
+            raise ValueError(kind)
+    return {"t": "model", "cls": cls, "kw": kw, "extra": [], "implicit": True}
+
+
+def default_limits(cls, name):
+    if not _DEFAULT_LIMITS:
+        import os
+        import yaml
+        from . import common
+        raw = yaml.safe_load(open(os.path.join(common.VERIF, "harness", "config", "priors", "vclasses.yaml")))
+        for c, attrs in raw.items():
+            for n, d in attrs.items():
+                _DEFAULT_LIMITS[(c, n)] = (float(d["lower_limit"]), float(d["upper_limit"]))
+    return _DEFAULT_LIMITS[(cls, name)]
+
+
+def assign_default_refs(root, pool):
+    """Replace every {"t": "default"} by {"t": "prior", "ref": k, "default": True}; k counts upwards from
+    len(pool) in the order in which the interpreter (vbuild.build_expr) makes the library create the
+    config-default priors (they are created after all pool priors), and a uniform spec with the config's limits
+    is appended to the pool for each."""
+    def fresh(cls, name):
+        lo, hi = default_limits(cls, name)
+        pool.append({"family": "uniform", "lo": lo.hex(), "hi": hi.hex(), "default": True})
+        return {"t": "prior", "ref": len(pool) - 1, "default": True}
+
+    def go(e):
+        t = e["t"]
+        if t == "model":
+            sig = SIGNATURES[e["cls"]]
+            # 1. explicit keyword arguments are evaluated before Model(cls, **kw) runs
+            for arg, kind, extra in sig:
+                sub = e["kw"][arg]
+                if kind == "tuple":
+                    if sub.get("whole"):
+                        for j in sub["order"]:
+                            go(sub["members"][j])
+                elif sub["t"] != "default" and not sub.get("implicit"):
+                    go(sub)
+            # 2. Model.__init__ walks the constructor arguments in order
+            for arg, kind, extra in sig:
+                sub = e["kw"][arg]
+                if kind == "tuple":
+                    if not sub.get("whole"):
+                        for j, m in enumerate(sub["members"]):
+                            if m["t"] == "default":
+                                sub["members"][j] = fresh(e["cls"], "%s_%d" % (arg, j))
+                elif sub["t"] == "default":
+                    e["kw"][arg] = fresh(e["cls"], arg)
+                elif sub.get("implicit"):
+                    go(sub)
+            # 3. explicit tuple members and extra attributes are assigned afterwards
+            for arg, kind, extra in sig:
+                sub = e["kw"][arg]
+                if kind == "tuple" and not sub.get("whole"):
+                    for m in sub["members"]:
+                        if not m.get("default"):
+                            go(m)
+            for _, sub in e.get("extra", []):
+                go(sub)
+        elif t == "coll":
+            for _, sub in e["items"]:
+                go(sub)
+        elif t == "arith":
+            go(e["l"])
+            go(e["r"])
+        elif t == "unary":
+            go(e["a"])
+        elif t == "array":
+            for j in e["order"]:
+                go(e["elems"][j])
+    go(root)
 
 
 def expected_tree(e, names=None):
@@ -201,6 +373,8 @@ def expected_tree(e, names=None):
         return dict(e)
     if t == "arith":
         return {"t": "arith", "op": e["op"], "l": expected_tree(e["l"]), "r": expected_tree(e["r"])}
+    if t == "unary":
+        return {"t": "unary", "op": e["op"], "a": expected_tree(e["a"])}
     if t == "tuple":
         raise ValueError("tuple outside model")
     if t == "model":
@@ -208,7 +382,8 @@ def expected_tree(e, names=None):
         for arg, kind, extra in SIGNATURES[e["cls"]]:
             sub = e["kw"][arg]
             if kind == "tuple":
-                attrs.append([arg, {"t": "tuple", "members": [["%s_%d" % (arg, i), expected_tree(m)] for i, m in enumerate(sub["members"])]}])
+                order = sub["order"] if sub.get("whole") else range(len(sub["members"]))
+                attrs.append([arg, {"t": "tuple", "members": [["%s_%d" % (arg, i), expected_tree(sub["members"][i])] for i in order]}])
             else:
                 attrs.append([arg, expected_tree(sub)])
         for k, sub in e.get("extra", []):
